@@ -17,7 +17,7 @@ is transcribed as. -/
 def runArmModel : List (String × String × List String) := [
   ("vaxis.Resize",   "RunEv.resize   : redraw := true",               ["set redraw"]),
   ("vaxis.Mouse",    "RunEv.mouse    : mouseHandleEvent",             ["call handleEvent"]),
-  ("vaxis.FocusIn",  "RunEv.focusIn  : notify root MouseEnter",       ["call HandleEvent", "call handleCommand"]),
+  ("vaxis.FocusIn",  "RunEv.focusIn  : mouseEnter root",              ["call mouseEnter"]),
   ("vaxis.FocusOut", "RunEv.focusOut : mouse := none; mouseExit",     ["set mouse", "call mouseExit"]),
   ("vaxis.Key",      "RunEv.key      : handleEvent",                  ["call handleEvent"]),
   ("vaxis.Redraw",   "RunEv.redraw   : redraw := true",               ["set redraw"]),
@@ -56,5 +56,65 @@ theorem render_sort_call : Gen.VxfwCases.renderSorts = ["sort.Slice"] := by deci
 
 /-- One arm per constructor of the model's `RunEv` (7). -/
 theorem run_arm_count : Gen.VxfwCases.runArms.length = 7 := by decide
+
+/-! ### statement skeletons of the handlers
+
+`Gen.VxfwCases.skeletons` lists, per function, its statements in source order (see
+`extract/cmd/C15`). The theorems keep, per function, the entries that decide the order of
+handler calls, command processing and state updates the model transcribes; local variable names,
+error plumbing and `len` calls are not part of the tie. -/
+
+def skel (fn : String) (keep : List String) : List String :=
+  ((Gen.VxfwCases.skeletons.lookup fn).getD ["?missing"]).filter (fun x => keep.contains x)
+
+/-- `focusWidget` (repairs of F115b and F115a): FocusOut handler, `focused = w`, `findPath`,
+FocusIn handler, and only then the two commands — as in `Model.Vxfw.focusWidgetWith`. -/
+theorem focus_widget_order :
+    skel "focusHandler.focusWidget" ["call HandleEvent", "set focused", "call findPath", "call handleCommand"] =
+      ["call HandleEvent", "set focused", "call findPath", "call HandleEvent", "call handleCommand", "call handleCommand"] := by
+  decide
+
+/-- `focusHandler.handleEvent` iterates over a local snapshot of the path in both loops (the
+model's `dispatch` takes the chain as an argument), capture – target – bubble. -/
+theorem handle_event_snapshot :
+    skel "focusHandler.handleEvent" ["range local", "range field path", "index local", "index field path"] =
+      ["range local", "index local"] ∧
+    skel "focusHandler.handleEvent" ["call CaptureEvent", "call HandleEvent", "call handleCommand"] =
+      ["call CaptureEvent", "call handleCommand", "call HandleEvent", "call handleCommand",
+       "call HandleEvent", "call handleCommand"] := by decide
+
+/-- `updatePath` stores the frame, calls `findPath`, refocuses the root; `findPath` clears the
+path, runs `childHasFocus`, appends the root. -/
+theorem update_path_shape :
+    skel "focusHandler.updatePath" ["set lastFrame", "call findPath", "call focusWidget"] =
+      ["set lastFrame", "call findPath", "call focusWidget"] ∧
+    skel "focusHandler.findPath" ["set path", "call childHasFocus", "call append"] =
+      ["set path", "call childHasFocus", "set path", "call append"] := by decide
+
+/-- `mouseEnter` (repair of F43): look the widget up in the hit list, record it, notify it. -/
+theorem mouse_enter_recorded :
+    skel "mouseHandler.mouseEnter" ["range field lastHits", "set lastHits", "call HandleEvent", "call handleCommand"] =
+      ["range field lastHits", "set lastHits", "call HandleEvent", "call handleCommand"] := by decide
+
+/-- `mouseHandler.update` / `mouseExit` / `handleEvent`: hit test, leave loop over the old list,
+enter loop over the new one, store; three-phase dispatch over the stored hit list. -/
+theorem mouse_handler_shape :
+    skel "mouseHandler.update" ["call containsPoint", "call hitTest", "range field lastHits", "range local",
+        "call HandleEvent", "call handleCommand", "set lastHits"] =
+      ["call containsPoint", "call hitTest", "range field lastHits", "range local", "call HandleEvent",
+       "call handleCommand", "range local", "range field lastHits", "call HandleEvent", "call handleCommand",
+       "set lastHits"] ∧
+    skel "mouseHandler.mouseExit" ["range field lastHits", "call HandleEvent", "call handleCommand", "set lastHits"] =
+      ["range field lastHits", "call HandleEvent", "call handleCommand", "set lastHits"] ∧
+    skel "mouseHandler.handleEvent" ["set mouse", "call update", "range field lastHits", "index field lastHits",
+        "call CaptureEvent", "call HandleEvent", "call handleCommand"] =
+      ["set mouse", "call update", "range field lastHits", "call CaptureEvent", "call handleCommand",
+       "index field lastHits", "call HandleEvent", "call handleCommand",
+       "index field lastHits", "call HandleEvent", "call handleCommand"] := by decide
+
+/-- Every function the skeleton facts speak about was found in the source. -/
+theorem skeletons_found :
+    Gen.VxfwCases.skeletons.all (fun x => !x.2.contains "?missing") = true ∧
+    Gen.VxfwCases.skeletons.length = 10 := by decide
 
 end VaxisModel.Props.C15Gen
